@@ -19,6 +19,7 @@ type PropCfg struct {
 	Roots   []string // regexps: entry points whose reachable module functions form the function set (zero-annotation sweep)
 	Tagged  bool   // functions whose contract lists the property (plus the contract callees they rely on)
 	Passes  []string // dataflow passes
+	DFRoots []string // roots of the call graph inspected by the dataflow passes (default: the decode entry points)
 	Scope   []string // if set: only reachable functions matching one of these regexps are claimed; the rest is listed as unverified
 	Explain string
 	Design  string
@@ -40,21 +41,25 @@ var c01Scope = []string{
 	`^imagemeta\.(DecodeTiff|DecodeCR2|DecodeHeif|DecodePng)$`,
 }
 
+var hashAndDecodeRoots = append(append([]string{}, decodeRoots...), `^imagehash\.(NewPHash64|NewPHash256|NewPHash64Alt|NewPHash256Alt|NewAHash)$`)
+
 var propCfgs = map[string]*PropCfg{
 	"C01": {ID: "C01", Level: "proof", Safety: true, Roots: decodeRoots, Tagged: true, Scope: c01Scope, Design: "DESIGN.md 5 C01"},
 	"C02": {ID: "C02", Level: "proof", Variant: true, Roots: decodeRoots, Tagged: true, Scope: c01Scope, Design: "DESIGN.md 5 C02"},
 	"C03": {ID: "C03", Level: "proof", Tagged: true, Design: "DESIGN.md 5 C03"},
-	"C04": {ID: "C04", Level: "proof", Tagged: true, Passes: []string{"pool-escape", "globals"}, Design: "DESIGN.md 5 C04"},
-	"C05": {ID: "C05", Level: "other", Tagged: true, Passes: []string{"globals", "locks"}, Design: "DESIGN.md 5 C05"},
+	"C04": {ID: "C04", Level: "proof", Tagged: true, DFRoots: hashAndDecodeRoots, Passes: []string{"globals", "pool-discipline"}, Design: "DESIGN.md 5 C04"},
+	"C05": {ID: "C05", Level: "other", Tagged: true, DFRoots: hashAndDecodeRoots, Passes: []string{"globals", "pool-discipline"}, Design: "DESIGN.md 5 C05",
+		Explain: "Deductive verification does not enumerate schedules. What is decided is a discipline that implies data-race freedom for this code base (meta-theorem, stated not proved: lockset + exclusive ownership => DRF): (a) inventory of every package-level variable touched on any path from the decode and hash entry points: each is a sync.Pool, a mutex, read-only after initialisation, assigned only by configuration functions outside the call graph (SetLogger...), or (b) accessed only between Lock/RLock and the matching unlock of a package mutex, writes only under Lock, lock state equal on all paths and free at every return (forward dataflow over the CFG of every function touching it); (c) pool discipline: no path of a function performs more Put (explicit + deferred) than Get on the same pool. Not covered: races inside dependencies, configuration concurrent with a decode, escape of pooled memory into results (see C04), equality of concurrent and sequential results beyond what C04 would give."},
 	"C06": {ID: "C06", Level: "proof", Tagged: true, Design: "DESIGN.md 5 C06"},
 	"C07": {ID: "C07", Level: "proof", Tagged: true, Design: "DESIGN.md 5 C07"},
-	"C08": {ID: "C08", Level: "proof", Tagged: true, Passes: []string{"stray-read"}, Design: "DESIGN.md 5 C08"},
+	"C08": {ID: "C08", Level: "proof", Tagged: true, DFRoots: decodeRoots, Passes: []string{"stray-read"}, Design: "DESIGN.md 5 C08"},
 	"C09": {ID: "C09", Level: "proof", Safety: true, Tagged: true, Roots: []string{`^imagetype\.(Scan|ScanBuf|ReadAt|Buf)$`}, Design: "DESIGN.md 5 C09"},
 	"C10": {ID: "C10", Level: "proof", Tagged: true, Design: "DESIGN.md 5 C10"},
 	"C11": {ID: "C11", Level: "proof", Tagged: true, Design: "DESIGN.md 5 C11"},
 	"C12": {ID: "C12", Level: "proof", Safety: true, Variant: true, Tagged: true, Design: "DESIGN.md 5 C12"},
-	"C14": {ID: "C14", Level: "other", Tagged: true, Roots: decodeRoots, Passes: []string{"alloc"}, Design: "DESIGN.md 5 C14"},
-	"C15": {ID: "C15", Level: "proof", Tagged: true, Roots: decodeRoots, Passes: []string{"log-regions", "silence"}, Design: "DESIGN.md 5 C15"},
+	"C14": {ID: "C14", Level: "other", Tagged: true, DFRoots: decodeRoots, Passes: []string{"alloc"}, Design: "DESIGN.md 5 C14",
+		Explain: "Allocation-site inventory over the call graph of the decode/preview entry points (go/ssa): every make, new, append, string/[]byte conversion and buffered-reader construction is one obligation 'the requested size is a constant, a value of at most 16 bits, or the length of a value that is already in memory'. The classification is a syntactic dataflow over the size operand (locals followed through their stores); it is NOT an SMT proof and it does not add the sites up: the global bound 4MiB + 16*len(b) (a ghost allocation counter through every loop) is not decided. Sites inside loops are marked; the number of iterations is covered only where C02 proves a consumption measure."},
+	"C15": {ID: "C15", Level: "proof", Tagged: true, Safety: true, Roots: []string{`\.MarshalZerolog(Object|Array)$`, `^exif2\.Tag\.logTag$`, `^isobmff\.\(\*box\)\.log$`}, DFRoots: decodeRoots, Passes: []string{"log-regions", "silence"}, Design: "DESIGN.md 5 C15"},
 	"C16": {ID: "C16", Level: "proof", Safety: true, Tagged: true, Roots: []string{
 		`^meta\..*\.(UnmarshalText|UnmarshalJSON|UnmarshalBinary|ParseString|MarshalText|MarshalJSON|MarshalBinary|String)$`,
 		`^meta/canon\..*\.(UnmarshalText|MarshalText)$`, `^imagetype\.\(\*ImageType\)\.UnmarshalText$`, `^imagetype\.ImageType\.MarshalText$`,
